@@ -87,7 +87,10 @@ func (r *Run) argCheck(rule string, entry *ssa.Function, callee string, i int, w
 func coinFromMsg(p *Program, field string) VPred {
 	f := msgF(p, field)
 	return func(v ssa.Value) bool {
-		return derivesFrom(v, func(y ssa.Value) bool { return f(y) })
+		// the message's amount itself (through conversions), or a sum containing it, on every alternative of v
+		return everyAlternative(v, func(x ssa.Value) bool {
+			return derivesFromStop(x, func(y ssa.Value) bool { return f(y) }, isSubtractiveOp)
+		})
 	}
 }
 
